@@ -163,10 +163,30 @@ def task(t):
     return dict(n=n, distinct=len(distinct), violations=viols, sample=sample)
 
 
+def len_task(t):
+    """credential length ladder: every login / password length in a window for every implemented mechanism (encoders that fold,
+    chunk or cap their output show at some length)"""
+    mech, lo, hi = t
+    viols = []
+    n = 0
+    for L in range(lo, hi):
+        for cred in (("user", "p" * L, ""), ("l" * max(L, 1), "pass", ""), ("user", "é" * L, "z" * (L % 7))):
+            r = one([mech], mech, cred, True)
+            n += 1
+            if r:
+                viols.append({"property": "C16", "engine": "wire", "signature": ["C16", mech, "length-ladder", r[0]],
+                              "what": "%s with credentials of lengths %r: %s" % (mech, tuple(len(x) for x in cred), r[1][:200]),
+                              "case": {"ladder": [mech, L]}, "witness": "%s login/password/authzid lengths %r" % (mech, tuple(len(x) for x in cred)),
+                              "observed": r[1][:160]})
+    return dict(n=n, distinct=n, violations=viols, sample=None)
+
+
 def run(tier, seed):
     lists = sasl_lists() + [None]
     chunks = [lists[i::16] for i in range(16)]
     res = pool.run_tasks("checks.c16:task", [c for c in chunks if c])
+    top = 160 if tier == "quick" else 1300
+    res += pool.run_tasks("checks.c16:len_task", [(m, lo, min(top, lo + 20)) for m in IMPLEMENTED for lo in range(0, top, 20)])
     n = sum(r["n"] for r in res)
     viols = []
     for r in res:
@@ -184,6 +204,8 @@ def run(tier, seed):
 
 def replay(payload):
     c = payload["case"]
+    if c.get("ladder"):
+        return len_task((c["ladder"][0], c["ladder"][1], c["ladder"][1] + 1))["violations"]
     # realm-bearing and realm-less challenges alternate in one process, as in the exploration
     one(c["announced"], c["authmech"], CREDS[c["cred"]], True, "ref")
     r = one(c["announced"], c["authmech"], CREDS[c["cred"]], c["verdict"], c.get("realm", "ref"), bool(c.get("final_sasl")))
